@@ -351,8 +351,19 @@ def run(check):
             raw.append(("reflective-fault/%d" % k, {"workflow.yaml": wf("", "  success: {v: %s}\n" % ex)}, {"tag": "a,b"}))
             raw.append(("reflective-fault/items/%d" % k, {"workflow.yaml": wf("", '  success: {d: !expr "$.steps.loop.outputs.success.data"}\n', steps=STEP + "  loop: {kind: foreach, workflow: sub.yaml, items: %s}\n" % ex),
                                                           "sub.yaml": wf("", OUT, root="Item").replace("tag: {type: {type_id: string}}", "item: {type: {type_id: any}}, constant: {type: {type_id: any}}").replace('"$.input.tag"', '"$.input.constant"')}, {"tag": "a,b"}))
+    # one-of options that are themselves optional values on a step that is not there yet (or never), and loop parallelism
+    # values of zero and below taken from the input
+    SLOW = '  w: {plugin: {src: leaf_w, deployment_type: scripted}, input: {tag: !expr "$.input.tag"}}\n  s: {plugin: {src: slow_s, deployment_type: scripted}, input: {tag: !expr "$.input.tag"}}\n'
+    for k, (o1, o2) in enumerate([('!soft-optional "$.steps.s.outputs.success"', '!expr "$.steps.w.outputs.error"'), ('!wait-optional "$.steps.s.outputs.error"', '!expr "$.steps.s.outputs.success"'),
+                                   ('!soft-optional "$.steps.s.outputs.success.tag"', '!soft-optional "$.steps.w.outputs.success.tag"'), ('!soft-optional "$.steps.w.outputs.error"', '!soft-optional "$.steps.s.outputs.error"')]):
+        raw.append(("oneof-of-optionals/output/%d" % k, {"workflow.yaml": wf("", '  success: {t: !expr "$.steps.w.outputs.success.tag", v: !oneof {discriminator: which, one_of: {a: %s, b: %s}}}\n' % (o1, o2), steps=SLOW)}, {"tag": "T"}))
+        raw.append(("oneof-of-optionals/wait_for/%d" % k, {"workflow.yaml": wf("", OUT, steps=SLOW.replace('input: {tag: !expr "$.input.tag"}}\n  s:', 'input: {tag: !expr "$.input.tag"}, wait_for: !oneof {discriminator: which, one_of: {a: %s, b: %s}}}\n  s:' % (o1.replace("steps.w", "steps.s"), o2.replace("steps.w", "steps.s")), 1))}, {"tag": "T"}))
+    PAR = ", par: {required: false, default: \"1\", type: {type_id: integer}}"
+    for k, par in enumerate([-1, 0, -9223372036854775808, 2]):
+        files = {"workflow.yaml": wf(ITEMS + PAR, '  success: {d: !expr "$.steps.loop.outputs.success.data"}\n  failed: {e: !expr "$.steps.loop.failed.error"}\n', steps=LOOP.replace("items:", "parallelism: !expr \"$.input.par\", items:")), "sub.yaml": wf("", OUT, root="Item")}
+        raw.append(("parallelism-from-input/%d" % par, files, {"tag": "T", "par": par, "items": [{"tag": "i0"}, {"tag": "i1"}]}))
     for shape, files, inp in raw:
-        scripts = {"leaf_w": {"exec_by_tag": {"bad": {"outcome": "crash"}}}}
+        scripts = {"leaf_w": {"exec_by_tag": {"bad": {"outcome": "crash"}}}, "slow_s": {"deploys": [{}, {"delay_ms": 40}]}}
         case = {"id": "c07-%05d" % len(items), "files": files, "scripts": scripts, "runs": [{"input": inp}]}
         items.append((case, None, {"shape": "hand-written/" + shape, "fault": ("hand-written:" + shape.split("/")[0], shape), "program": None, "outcome": {}}))
     stats = {"accepted": 0, "rejected": 0, "returned_error": 0, "returned_output": 0, "crashes": 0, "rejected_classes": {}}
